@@ -150,39 +150,105 @@ struct Extractor {
     return id;
   }
 
+  std::unordered_map<const Decl *, unsigned> lambda_ord;   // lambda class -> ordinal within its enclosing function
+  std::unordered_map<const Decl *, unsigned> lambda_count; // enclosing decl -> lambdas seen so far
+
+  void noteLambda(const CXXRecordDecl *LC) {
+    const Decl *C = LC->getCanonicalDecl();
+    if (lambda_ord.count(C))
+      return;
+    const DeclContext *DC = LC->getDeclContext();
+    while (DC && !isa<FunctionDecl>(DC) && !isa<CXXRecordDecl>(DC) && !isa<NamespaceDecl>(DC) && !isa<TranslationUnitDecl>(DC))
+      DC = DC->getParent();
+    const Decl *Key = DC ? cast<Decl>(DC)->getCanonicalDecl() : nullptr;
+    lambda_ord[C] = ++lambda_count[Key];
+  }
+
+  void printTArgs(llvm::raw_ostream &OS, llvm::ArrayRef<TemplateArgument> Args) {
+    OS << "<";
+    bool first = true;
+    for (auto &A : Args) {
+      if (!first)
+        OS << ", ";
+      first = false;
+      A.print(PP, OS, true);
+    }
+    OS << ">";
+  }
+
+  // Stable qualified name: namespaces, records (with template arguments), functions (with template
+  // arguments, without parameter lists), lambdas as <lambda#N> (N-th lambda of the enclosing function).
+  void printContext(llvm::raw_ostream &OS, const DeclContext *DC) {
+    if (!DC || isa<TranslationUnitDecl>(DC))
+      return;
+    if (isa<LinkageSpecDecl>(DC) || isa<ExportDecl>(DC) || isa<RequiresExprBodyDecl>(DC)) {
+      printContext(OS, DC->getParent());
+      return;
+    }
+    if (auto *NS = dyn_cast<NamespaceDecl>(DC)) {
+      printContext(OS, DC->getParent());
+      if (NS->isInline())
+        return;
+      if (NS->isAnonymousNamespace())
+        OS << "(anonymous)::";
+      else
+        OS << NS->getName() << "::";
+      return;
+    }
+    if (auto *ND = dyn_cast<NamedDecl>(DC)) {
+      printOwn(OS, ND);
+      OS << "::";
+      return;
+    }
+    printContext(OS, DC->getParent());
+  }
+
+  void printOwn(llvm::raw_ostream &OS, const NamedDecl *D) {
+    if (auto *RD = dyn_cast<CXXRecordDecl>(D)) {
+      printContext(OS, RD->getDeclContext());
+      if (RD->isLambda()) {
+        auto it = lambda_ord.find(RD->getCanonicalDecl());
+        if (it != lambda_ord.end())
+          OS << "<lambda#" << it->second << ">";
+        else
+          OS << "<lambda@" << lineOf(RD->getLocation()) << ":" << SM.getExpansionColumnNumber(RD->getLocation()) << ">";
+        return;
+      }
+      if (RD->getIdentifier())
+        OS << RD->getName();
+      else
+        OS << "(anonymous class)";
+      if (auto *CTS = dyn_cast<ClassTemplateSpecializationDecl>(RD))
+        printTArgs(OS, CTS->getTemplateArgs().asArray());
+      return;
+    }
+    if (auto *FD = dyn_cast<FunctionDecl>(D)) {
+      if (auto *M = dyn_cast<CXXMethodDecl>(FD))
+        if (M->getParent()->isLambda()) {
+          printOwn(OS, M->getParent());
+          if (auto *Args = FD->getTemplateSpecializationArgs())
+            printTArgs(OS, Args->asArray());
+          return;
+        }
+      printContext(OS, FD->getDeclContext());
+      OS << FD->getDeclName();
+      if (auto *Args = FD->getTemplateSpecializationArgs())
+        printTArgs(OS, Args->asArray());
+      return;
+    }
+    printContext(OS, D->getDeclContext());
+    OS << D->getDeclName();
+  }
+
   std::string qname(const NamedDecl *D) {
     std::string S;
     llvm::raw_string_ostream OS(S);
-    D->getNameForDiagnostic(OS, PP, true);
+    printOwn(OS, D);
     OS.flush();
     return S;
   }
 
-  std::string fnQName(const FunctionDecl *F) {
-    std::string S;
-    llvm::raw_string_ostream OS(S);
-    // lambdas: name the enclosing function
-    if (auto *M = dyn_cast<CXXMethodDecl>(F)) {
-      if (M->getParent()->isLambda()) {
-        const DeclContext *DC = M->getParent()->getDeclContext();
-        while (DC && !isa<FunctionDecl>(DC) && !isa<NamespaceDecl>(DC) && !isa<TranslationUnitDecl>(DC) && !isa<CXXRecordDecl>(DC))
-          DC = DC->getParent();
-        if (DC)
-          if (auto *ND = dyn_cast<NamedDecl>(DC)) {
-            if (auto *PF = dyn_cast<FunctionDecl>(ND))
-              OS << fnQName(PF);
-            else
-              ND->getNameForDiagnostic(OS, PP, true);
-          }
-        OS << "::<lambda@" << lineOf(M->getParent()->getLocation()) << ":" << SM.getExpansionColumnNumber(M->getParent()->getLocation()) << ">";
-        OS.flush();
-        return S;
-      }
-    }
-    F->getNameForDiagnostic(OS, PP, true);
-    OS.flush();
-    return S;
-  }
+  std::string fnQName(const FunctionDecl *F) { return qname(F); }
 
   // ---------------------------------------------------------------- expressions
   static const Expr *strip(const Expr *E) {
@@ -443,6 +509,7 @@ struct Extractor {
       } else if (auto *LE = dyn_cast<LambdaExpr>(E)) {
         J.attribute("k", "lambda");
         const CXXRecordDecl *LC = LE->getLambdaClass();
+        noteLambda(LC);
         J.attribute("cls", typeId(Ctx.getRecordType(LC)));
         if (auto *Op = LE->getCallOperator())
           J.attribute("fn", fnId(Op));
